@@ -11,13 +11,18 @@ RULE = ("cases = Laurent polynomials given as (power, coefficient) lists with ex
         "coefficients (powers -4..6, cancelling values included), a construction route "
         "(dict / list / x-expression), evaluation points, exponents 0..5, a plain number as left "
         "operand of + - * (spelled int / float / -0. / bool / Fraction / Q, zero and one weighted) and "
-        "interpolation point sets with distinct abscissae; oracle = an independent dict-of-Fractions "
+        "interpolation point sets with distinct abscissae; coefficients and points are handed over as Q, as "
+        "plain Fractions or (where only + - * ** are involved) ints, sizes 0 / 1 / 2 / 3+ terms weighted, exponents "
+        "0..7; histories: augmented assignments, hash then item / zero assignment (empty polynomial of several "
+        "origins included), item assignment on results of operations on the shared x before interpolating; oracle = an independent dict-of-Fractions "
         "polynomial arithmetic (sum, product, power, derivative, integral, composition, "
         "evaluation) compared exactly, plus the ring laws themselves; non-trivial = both "
         "operands have at least 2 terms (at least 2 points for interpolation); distinct = "
         "distinct case hash")
 ASSUMPTIONS = [
-  "coefficients and points are Q (exact rationals absorbing float constants such as Poly.zero = 0.0 exactly)",
+  "coefficients and points are Q (exact rationals absorbing float constants such as Poly.zero = 0.0 exactly), plain Fractions or ints; the 0.0 an empty polynomial evaluates to is taken at its exact value",
+  "a hashed Poly may refuse item / zero assignment (TypeError); if it accepts, == must still imply equal hashes",
+  "results of operations belong to the caller: assigning to an item of x ** 1, x * 1, +x ... must leave the module-level x alone (p ** 1 returning a multi-term p itself is not judged)",
   "evaluation at 0 only for true polynomials; composition p(q) only where it is a Laurent polynomial (p a true polynomial or q a monomial)",
   "exponents are non-negative ints (p**negative on multi-term polynomials is undefined by the property)",
 ]
@@ -30,7 +35,10 @@ def terms(minp=-4, maxp=6, maxn=6):
   def lst(lo):
     return st.lists(st.tuples(st.integers(minp, maxp), fr_s), min_size=lo, max_size=maxn,
                     unique_by=lambda t: t[0])
-  return st.one_of(lst(0), lst(2), lst(2))
+  # 1..3 non-zero terms: the sizes at which __pow__ / __call__ / __truediv__ change strategy (0, 1, 2, more)
+  small = st.lists(st.tuples(st.integers(minp, maxp), fr_s.filter(lambda c: c != 0)), min_size=1,
+                   max_size=min(3, maxn), unique_by=lambda t: t[0])
+  return st.one_of(lst(0), lst(2), lst(2), small)
 
 
 ROUTES = ["dict", "list", "expr", "setitem", "dict_floatkeys"]
@@ -41,7 +49,8 @@ def build(tl, route):
   d = dict(tl)
   if route == "list" and all(k >= 0 for k in d):
     n = max(d) + 1 if d else 0
-    return Poly([d.get(k, Q(0)) for k in range(n)])
+    fill = Q(0) if all(isinstance(c, Q) for c in d.values()) else F(0)
+    return Poly([d.get(k, fill) for k in range(n)])
   if route == "expr":
     p = Poly()
     for k, c in tl:
@@ -55,6 +64,31 @@ def build(tl, route):
   if route == "dict_floatkeys":   # integer-valued float powers (e.g. computed as k / 2.) are integer powers
     return Poly(dict((float(k), c) for k, c in tl))
   return Poly(dict(d))
+
+
+# The exact rational coefficients are handed over in one of several spellings.  Q absorbs a float it meets
+# exactly (so a float constant inside the library goes unnoticed by it), a plain Fraction degrades to an
+# inexact float on contact with one, an int turns int / int into a float: all three are "exact rational
+# coefficients", and as long as the library only uses + - * and integer powers on them the results are the
+# same exact rationals.
+CSPELL = ["q", "fraction", "int|fraction"]
+
+
+def respell(tl, cs):
+  if cs == "fraction":
+    return [(k, F(c)) for k, c in tl]
+  if cs == "int|fraction":
+    return [(k, int(F(c)) if F(c).denominator == 1 else F(c)) for k, c in tl]
+  return list(tl)
+
+
+def num(v, cs):
+  """A point / scalar in the spelling that goes with the coefficients."""
+  return v if cs == "q" else F(v)
+
+
+def float_cannot_hold(tl):
+  return any(c != 0 and F(c).denominator & (F(c).denominator - 1) for _, c in tl)
 
 
 def model(tl):
@@ -168,8 +202,9 @@ def spell_left(how, c):
 
 def strat_ring(tier):
   return st.fixed_dictionaries(dict(
-    p=terms(), q=terms(), r=terms(maxn=4), n=st.integers(0, 5),
-    routes=st.tuples(*[st.sampled_from(ROUTES)] * 3), left=left_scalar))
+    p=terms(), q=terms(), r=terms(maxn=4), n=st.sampled_from(list(range(8))),
+    routes=st.tuples(*[st.sampled_from(ROUTES)] * 3), left=left_scalar,
+    cs=st.sampled_from(["q", "fraction", "fraction", "int|fraction"])))
 
 
 def left_scalar_laws(p, P, how, c):
@@ -201,9 +236,45 @@ def left_scalar_laws(p, P, how, c):
   return labels
 
 
+def augmented(mk_p, q, r, P, Qm, R, n, k):
+  """The operators spelled as augmented assignments: a += q is a = a + q whatever the library does to get there."""
+  a = mk_p()
+  a += q
+  check(a, m_add(P, Qm), "a = p; a += q")
+  a -= q
+  check(a, P, "a = p; a += q; a -= q")
+  a *= q
+  check(a, m_mul(P, Qm), "a = p; a *= q")
+  a = mk_p()
+  a += -a
+  check(a, {}, "a = p; a += -a")
+  a = mk_p()
+  a += r - mk_p()
+  check(a, R, "a = p; a += r - p")
+  a = mk_p()
+  a -= a
+  check(a, {}, "a = p; a -= a")
+  a = mk_p()
+  a **= n
+  check(a, m_pow(P, n), "a = p; a **= %d" % n)
+  a = mk_p()
+  a /= k
+  a += k
+  a *= k
+  check(a, m_add(P, {0: F(k) * F(k)}), "a = p; a /= k; a += k; a *= k")
+  a = mk_p()
+  h = hash(a)
+  a += q
+  check(a, m_add(P, Qm), "a = p; hash(a); a += q")
+  if m_add(P, Qm) != P and hash(a) == h and a == mk_p():
+    raise Violation("a = p; hash(a); a += q left a as it was")
+  return ["augmented assignments" + (", all of p cancelled and replaced" if P and R else "")]
+
+
 def run_ring(c):
   P, Qm, R = model(c["p"]), model(c["q"]), model(c["r"])
-  p, q, r = (build(c[k], rt) for k, rt in zip("pqr", c["routes"]))
+  cs = c.get("cs", "q")
+  p, q, r = (build(respell(c[k], cs), rt) for k, rt in zip("pqr", c["routes"]))
   check(p, P, "p built by " + c["routes"][0])
   check(p + q, m_add(P, Qm), "p+q")
   check(q + p, m_add(P, Qm), "q+p")
@@ -228,7 +299,7 @@ def run_ring(c):
     pw = pw * p
   eq(p ** n, pw, "p**n vs n-fold product")
   # scalars on either side
-  k = Q(3, 2)
+  k = num(Q(3, 2), cs)
   check(k * p, m_mul({0: F(k)}, P), "k*p")
   check(p * k, m_mul({0: F(k)}, P), "p*k")
   check(p + k, m_add(P, {0: F(k)}), "p+k")
@@ -236,7 +307,14 @@ def run_ring(c):
   check(p / k, {kk: cc / F(k) for kk, cc in P.items()}, "p/k")
   # the builtin sum starts with 0 + first
   check(sum([p, q, r]), m_add(m_add(P, Qm), R), "sum([p, q, r])")
-  labels = left_scalar_laws(p, P, *c["left"]) if "left" in c else []
+  labels = []
+  if "left" in c:
+    # a float scalar next to plain Fraction / int coefficients is float arithmetic by Python's own rules:
+    # those spellings of the scalar meet the Q spelling of p
+    floatish = c["left"][0] in ("float", "negzero") and cs != "q"
+    labels = left_scalar_laws(build(c["p"], c["routes"][0]) if floatish else p, P, *c["left"])
+  if "cs" in c:
+    labels += augmented(lambda: build(respell(c["p"], cs), c["routes"][0]), q, r, P, Qm, R, n, k)
   if any(kk < 0 for kk in list(P) + list(Qm)):
     labels.append("negative powers")
   if len(m_add(P, Qm)) < len(set(P) | set(Qm)) or len(m_mul(P, Qm)) < len({a + b for a in P for b in Qm}):
@@ -244,25 +322,32 @@ def run_ring(c):
   if any(cc == 0 for _, cc in c["p"] + c["q"]):
     labels.append("zero given")
   labels.append("n=%d" % n)
+  labels.append("coefficients spelled " + cs)
+  labels.append("p has %s terms" % (len(P) if len(P) < 3 else "3+"))
+  if cs != "q" and n >= 4 and len(P) >= 2 and float_cannot_hold(c["p"]):
+    labels.append("power 4+ of a %s with plain Fraction coefficients no float can hold"
+                  % ("binomial" if len(P) == 2 else "longer polynomial"))
   return {"nontrivial": len(P) >= 2 and len(Qm) >= 2, "labels": labels}
 
 
 # ------------------------------------------------------------------ evaluation
 def strat_eval(tier):
   return st.fixed_dictionaries(dict(
-    p=terms(), q=terms(), v=fr, route=st.sampled_from(ROUTES)))
+    p=terms(), q=terms(), v=fr, route=st.sampled_from(ROUTES),
+    cs=st.sampled_from(["q", "fraction", "fraction", "int|fraction"])))
 
 
 def run_eval(c):
   P, Qm = model(c["p"]), model(c["q"])
-  p, q = build(c["p"], c["route"]), build(c["q"], "dict")
-  v = c["v"]
-  labels = []
+  cs = c.get("cs", "q")
+  p, q = build(respell(c["p"], cs), c["route"]), build(respell(c["q"], cs), "dict")
+  v = num(c["v"], cs)
+  labels = ["coefficients and point spelled " + cs]
   if v == 0:
     # evaluation at zero is defined for true polynomials only
     P = {k: cc for k, cc in P.items() if k >= 0}
     Qm = {k: cc for k, cc in Qm.items() if k >= 0}
-    p, q = Poly(dict(P_to_q(P))), Poly(dict(P_to_q(Qm)))
+    p, q = Poly(dict(respell(P_to_q(P), cs))), Poly(dict(respell(P_to_q(Qm), cs)))
     labels.append("at zero")
   ep, eq_ = m_eval(P, v), m_eval(Qm, v)
   for name, val, exp in [("p(v)", p(v), ep), ("q(v)", q(v), eq_),
@@ -270,7 +355,9 @@ def run_eval(c):
                          ("(p+q)(v)", (p + q)(v), ep + eq_)]:
     if val != exp:
       raise Violation("%s = %r, expected %r (p=%r q=%r v=%r)" % (name, val, exp, P, Qm, v))
-  if (p * q)(v) != p(v) * q(v) or (p + q)(v) != p(v) + q(v):
+  # (the empty polynomial evaluates to its zero, the float 0.0: taken at its exact value on the oracle's side)
+  ex = lambda y: Q(y) if isinstance(y, float) else y
+  if (p * q)(v) != ex(p(v)) * ex(q(v)) or (p + q)(v) != ex(p(v)) + ex(q(v)):
     raise Violation("evaluation is not a homomorphism at %r for %r, %r" % (v, P, Qm))
   if len(P):
     h1, h0, ha = p(v, horner=True), p(v, horner=False), p(v, horner="auto")
@@ -292,11 +379,11 @@ def run_eval(c):
     str(p)
     newk = max(list(P) + [0]) + 2
     oldk = min(P) if P else None
-    p[newk] = Q(5, 3)
+    p[newk] = num(Q(5, 3), cs)
     P2 = dict(P)
     P2[newk] = F(5, 3)
     if oldk is not None:
-      p[oldk] = Q(0)                 # assigning the zero removes the term
+      p[oldk] = num(Q(0), cs)        # assigning the zero removes the term
       del P2[oldk]
     if dict(p.terms()) != P2:
       raise Violation("after item assignment terms() gives %r, expected %r" % (dict(p.terms()), P2))
@@ -306,7 +393,9 @@ def run_eval(c):
         raise Violation("after p[%d] = 5/3%s: p(%r, horner=%r) = %r, expected %r (terms now %r)"
                         % (newk, "" if oldk is None else " and p[%d] = 0" % oldk, v, kind, val, m_eval(P2, v), P2))
     labels.append("mutated after evaluation")
-  return {"nontrivial": len(P) >= 2 and len(Qm) >= 2, "labels": labels or ["dense"]}
+  if len(labels) == 1:
+    labels.append("dense")
+  return {"nontrivial": len(P) >= 2 and len(Qm) >= 2, "labels": labels}
 
 
 def P_to_q(m):
@@ -317,20 +406,23 @@ def P_to_q(m):
 def strat_comp(tier):
   mono = st.tuples(st.integers(-3, 3), fr.filter(lambda c: c != 0)).map(lambda t: [t])
   return st.one_of(
-    st.fixed_dictionaries(dict(kind=st.just("poly(any)"), p=terms(0, 4, 4), q=terms(-2, 3, 4), v=fr)),
-    st.fixed_dictionaries(dict(kind=st.just("laurent(monomial)"), p=terms(-3, 4, 5), q=mono, v=fr)))
+    st.fixed_dictionaries(dict(kind=st.just("poly(any)"), p=terms(0, 5, 4), q=terms(-2, 3, 4), v=fr,
+                               cs=st.sampled_from(["q", "fraction"]))),
+    st.fixed_dictionaries(dict(kind=st.just("laurent(monomial)"), p=terms(-3, 4, 5), q=mono, v=fr,
+                               cs=st.sampled_from(["q", "fraction"]))))
 
 
 def run_comp(c):
   P, Qm = model(c["p"]), model(c["q"])
-  p, q = build(c["p"], "dict"), build(c["q"], "dict")
+  cs = c.get("cs", "q")
+  p, q = build(respell(c["p"], cs), "dict"), build(respell(c["q"], cs), "dict")
   if c["kind"] == "laurent(monomial)" and not Qm:
     return {"nontrivial": False, "labels": ["degenerate"]}
   comp = p(q)
   if not isinstance(comp, Poly):
     raise Violation("p(q) is a %s" % type(comp).__name__)
   check(comp, m_comp(P, Qm), "p(q)")
-  v = c["v"]
+  v = num(c["v"], cs)
   if v != 0 or all(k >= 0 for k in list(Qm) + list(m_comp(P, Qm))):
     if v == 0:
       qv = m_eval({k: cc for k, cc in Qm.items()}, v)
@@ -342,20 +434,24 @@ def run_comp(c):
       if lhs != rhs or lhs != m_eval(P, qv):
         raise Violation("p(q)(v)=%r, p(q(v))=%r, expected %r (p=%r q=%r v=%r)"
                         % (lhs, rhs, m_eval(P, qv), P, Qm, v))
+  labels = [c["kind"], "coefficients spelled " + cs]
+  if cs != "q" and len(Qm) == 2 and max(list(P) + [0]) >= 4 and float_cannot_hold(c["q"]):
+    labels.append("power 4+ of a plain Fraction binomial inside p(q)")
   return {"nontrivial": len(P) >= 2 and (len(Qm) >= 2 or c["kind"] != "poly(any)"),
-          "labels": [c["kind"]]}
+          "labels": labels}
 
 
 # ------------------------------------------------------------------ calculus
 def strat_calc(tier):
   return st.fixed_dictionaries(dict(p=terms(), q=terms(), n=st.integers(0, 3),
-                                    a=fr, b=fr))
+                                    a=fr, b=fr, cs=st.sampled_from(["q", "fraction"])))
 
 
 def run_calc(c):
   P, Qm = model(c["p"]), model(c["q"])
-  p, q = build(c["p"], "dict"), build(c["q"], "expr")
-  a, b = c["a"], c["b"]
+  cs = c.get("cs", "q")     # ints are left out here: int / int in integrate() is a float by Python's rules
+  p, q = build(respell(c["p"], cs), "dict"), build(respell(c["q"], cs), "expr")
+  a, b = num(c["a"], cs), num(c["b"], cs)
   check(p.diff(), m_diff(P), "p.diff()")
   d = P
   for _ in range(c["n"]):
@@ -363,7 +459,7 @@ def run_calc(c):
   check(p.diff(c["n"]), d, "p.diff(%d)" % c["n"])
   eq((a * p + b * q).diff(), a * p.diff() + b * q.diff(), "diff linear")
   eq((p * q).diff(), p.diff() * q + p * q.diff(), "product rule")
-  labels = []
+  labels = ["coefficients spelled " + cs]
   if -1 in P:
     try:
       p.integrate()
@@ -398,7 +494,7 @@ def run_calc(c):
   # a Poly owns its terms: the mapping it was built from, a second Poly built from the same
   # mapping, and p.diff(0) are all independent of it
   from collections import OrderedDict
-  od = OrderedDict((k, cc) for k, cc in c["p"])
+  od = OrderedDict((k, cc) for k, cc in respell(c["p"], cs))
   before = list(od.items())
   pa, pb = Poly(od), Poly(od)
   if list(od.items()) != before:
@@ -427,9 +523,83 @@ def spell(c, how):
   return c
 
 
+EMPTY_ORIGINS = ["built", "Poly()", "a-a", "a*0", "0*a", "constant.diff()", "a.diff(9)"]
+
+
+def empty_from(origin, a):
+  """The empty polynomial as the result it usually is (a = some other polynomial)."""
+  if origin == "Poly()":
+    return Poly()
+  if origin == "a-a":
+    return a - a
+  if origin == "a*0":
+    return a * 0
+  if origin == "0*a":
+    return 0 * a
+  if origin == "constant.diff()":
+    return (a - a + Q(7, 3)).diff()
+  if origin == "a.diff(9)":
+    return Poly(dict((abs(k), cc) for k, cc in a.terms())).diff(9)
+  return None
+
+
+def store_after_hash(p, M, k, cval, zero, what):
+  """p has been hashed (it may sit in a dict).  An item / zero assignment afterwards is either refused with
+  TypeError, leaving p as it was, or - if the library accepts it - p == q must go on implying
+  hash(p) == hash(q) for the polynomial p has become."""
+  hash(p)
+  table = {p: what}
+  labels = []
+  try:
+    p[k] = cval
+    M2 = dict(M)
+    M2.pop(k, None)
+    if cval != 0:
+      M2[k] = F(cval)
+    labels.append("store after hash accepted")
+  except TypeError:
+    M2 = dict(M)
+    labels.append("store after hash refused")
+  if got(p) != M2:
+    raise Violation("%s: after hash() and p[%d] = %r (%s) the terms are %r, expected %r"
+                    % (what, k, cval, labels[-1], got(p), M2))
+  try:
+    p.zero = zero
+  except TypeError:
+    pass
+  if got(p) != M2:
+    raise Violation("%s: after hash() and p.zero = %r the terms are %r, expected %r" % (what, zero, got(p), M2))
+  twin = Poly(dict((kk, Q(cc)) for kk, cc in sorted(M2.items())))
+  if not (p == twin) or (p != twin) or not (twin == p):
+    raise Violation("%s: p = %r is not == an independent Poly of the same terms" % (what, got(p)))
+  if hash(p) != hash(twin) or twin not in {p} or p not in {twin}:
+    raise Violation("%s: after hash(p), then p[%d] = %r (%s): p == q for q = Poly(%r) but hash(p) = %d, "
+                    "hash(q) = %d" % (what, k, cval, labels[-1], M2, hash(p), hash(twin)))
+  if M2 == M and table.get(twin) != what:
+    raise Violation("%s: p unchanged and == q, but q does not find p's entry in a dict" % what)
+  return labels
+
+
+def number_comparisons(p, M, numbers, how):
+  """p against bare numbers, from either side: == exactly when p is that constant (the empty polynomial is 0);
+  a polynomial with any other term is a different polynomial whatever its constant term is."""
+  for value in numbers:
+    n = spell(Q(value), how)
+    expect = set(M) <= {0} and M.get(0, 0) == value
+    obs = (p == n, n == p, not (p != n), not (n != p))
+    if obs != (expect,) * 4:
+      raise Violation("p = %r against the number %r (%s): p == n, n == p, not p != n, not n != p are %r; "
+                      "p %s that constant" % (got(p), n, type(n).__name__, obs, "is" if expect else "is not"))
+  if not set(M) <= {0}:
+    return ["non-constant polynomial compared with numbers" + (" (a single term)" if len(M) == 1 else "")]
+  return ["constant polynomial compared with numbers"]
+
+
 def strat_eqh(tier):
+  nothing = st.lists(st.tuples(st.integers(-4, 6), st.just(Q(0))), max_size=3, unique_by=lambda t: t[0])
   return st.fixed_dictionaries(dict(
-    p=terms(), q=terms(), relation=st.sampled_from(["same", "same", "independent", "one coefficient", "one power"]),
+    p=st.one_of(terms(), terms(), terms(), nothing), origin=st.sampled_from(EMPTY_ORIGINS),
+    store=st.tuples(st.integers(-3, 8), fr_s), q=terms(), relation=st.sampled_from(["same", "same", "independent", "one coefficient", "one power"]),
     r1=st.sampled_from(ROUTES), r2=st.sampled_from(ROUTES),
     s1=st.sampled_from(["q", "float", "int", "fraction"]),
     s2=st.sampled_from(["q", "float", "int", "fraction"]),
@@ -456,6 +626,12 @@ def run_eqh(c):
   q = build([(k, spell(cc, c["s2"])) for k, cc in tq], c["r2"])
   if c["zero2"] != "default":
     q = Poly(q, zero=c["zero2"])
+  origin = "built"
+  if not model(tp) and "origin" in c:
+    origin = c["origin"]
+    e = empty_from(origin, build(c["q"], c["r2"]))
+    p = p if e is None else e
+    check(p, {}, "the empty polynomial as " + origin)
   expect = model(tp) == model(tq)
   e, ne = (p == q), (p != q)
   if e is not expect or ne is not (not expect):
@@ -474,18 +650,106 @@ def run_eqh(c):
     num = M.get(0, 0)
     if not (p == num) or (p != num):
       raise Violation("constant polynomial %r does not equal the number %r" % (got(p), num))
-  return {"nontrivial": len(model(tp)) >= 2, "labels": [rel, "equal" if expect else "unequal",
-                                                        c["s1"] + "/" + c["s2"]]}
+  labels = number_comparisons(p, M, [M.get(0, F(0)), F(0)] + ([F(c["store"][1])] if "store" in c else []), c["s2"])
+  labels += [rel, "equal" if expect else "unequal", c["s1"] + "/" + c["s2"]]
+  if "store" in c:
+    # every p above has been hashed; what happens to a later assignment must keep == and hash coherent
+    k, cval = c["store"]
+    z = 0 if c["zero2"] == "default" else c["zero2"]
+    labels += store_after_hash(p, M, k, cval, z, "p (%s)" % ("empty, " + origin if not M else "%d terms" % len(M)))
+    labels.append("hashed, then assigned to: %s" % ("the empty polynomial" if not M else "a non-empty polynomial"))
+    if not M:
+      labels.append("empty polynomial obtained as " + origin)
+  return {"nontrivial": len(model(tp)) >= 2, "labels": labels}
 
 
 # ------------------------------------------------------------------ Lagrange
+# lagrange.poly - like every expression a user writes - is built from the ONE module-level polynomial x.
+# Results of operations on x belong to whoever computed them: item assignment on such a result (legal on a
+# never-hashed Poly) is part of the history before an interpolation is requested.
+X_OPS = {
+  "x**1": lambda: x ** 1,
+  "x**True": lambda: x ** True,
+  "x**1.0": lambda: x ** 1.0,
+  "x**Poly(1)": lambda: x ** Poly(1),
+  "x*1": lambda: x * 1,
+  "1*x": lambda: 1 * x,
+  "x*Poly(1)": lambda: x * Poly(1),
+  "x+0": lambda: x + 0,
+  "0+x": lambda: 0 + x,
+  "x+Poly()": lambda: x + Poly(),
+  "Poly()+x": lambda: Poly() + x,
+  "x-0": lambda: x - 0,
+  "+x": lambda: +x,
+  "-(-x)": lambda: -(-x),
+  "x/1": lambda: x / 1,
+  "x/Poly(1)": lambda: x / Poly(1),
+  "x(x)": lambda: x(x),
+  "x.copy()": lambda: x.copy(),
+  "Poly(x)": lambda: Poly(x),
+  "x.diff(0)": lambda: x.diff(0),
+  "sum([x])": lambda: sum([x]),
+  "(x**2).diff()/2": lambda: (x ** 2).diff() / 2,
+}
+X_OP_NAMES = sorted(X_OPS)
+
+
+def x_terms():
+  return dict(x.terms())
+
+
+def restore_x():
+  """Only ever does something when the library let the shared x be changed (a violation is then on its way)."""
+  if x_terms() == {1: 1} and x.zero == 0:
+    return
+  try:
+    for k in list(x_terms()):
+      if k != 1:
+        x[k] = x.zero
+    x[1] = 1
+    x.zero = 0.
+  except TypeError:
+    pass
+  if x_terms() != {1: 1} or x.zero != 0:
+    x._data.clear()
+    x._data[1] = 1
+    x._zero = 0.
+
+
 def strat_lag(tier):
   pts = st.lists(st.tuples(fr, fr), min_size=1, max_size=6, unique_by=lambda t: t[0])
-  return st.fixed_dictionaries(dict(pts=pts, t=fr, as_iter=st.booleans(), prime=st.booleans()))
+  xhist = st.one_of(st.none(), st.tuples(st.sampled_from(X_OP_NAMES), st.integers(-2, 3), fr_s),
+                    st.tuples(st.sampled_from(["x**1", "x**True", "x**1.0", "x**Poly(1)", "x*1", "x+0", "+x", "x(x)"]),
+                              st.integers(-2, 3), fr_s))
+  return st.fixed_dictionaries(dict(pts=pts, t=fr, as_iter=st.booleans(), prime=st.booleans(), xhist=xhist,
+                                    cs=st.sampled_from(["q", "fraction"])))
 
 
 def run_lag(c):
-  pts = [tuple(p) for p in c["pts"]]
+  try:
+    return run_lag_(c)
+  finally:
+    restore_x()
+
+
+def x_history(opname, k, cval):
+  r = X_OPS[opname]()
+  check(r, {1: F(1)}, opname)
+  r[k] = cval
+  R = {1: F(1)}
+  R.pop(k, None)
+  if cval != 0:
+    R[k] = F(cval)
+  check(r, R, "%s after r[%d] = %r" % (opname, k, cval))
+  return "%s, then r[%d] = %r on the result r" % (opname, k, cval)
+
+
+def run_lag_(c):
+  cs = c.get("cs", "q")     # ints are left out: the interpolator divides differences of abscissae
+  pts = [(num(a, cs), num(b, cs)) for a, b in c["pts"]]
+  hist = None
+  if c.get("xhist"):
+    hist = x_history(*c["xhist"])
   if c.get("prime", True):
     # an earlier call on the same abscissae spelled as floats / ints must not influence the exact one
     spelled = [((float(a) if F(a).denominator in (1, 2, 4) else a), float(b)) for a, b in pts]
@@ -497,9 +761,11 @@ def run_lag(c):
   for xk, yk in pts:
     a, b = lp(xk), lf(xk)
     if a != yk or b != yk:
-      raise Violation("interpolator misses (%r, %r): poly gives %r, func gives %r, points %r"
-                      % (xk, yk, a, b, pts))
-  t = c["t"]
+      raise Violation("interpolator misses (%r, %r): poly gives %r, func gives %r, points %r%s"
+                      % (xk, yk, a, b, pts, " (history: %s)" % hist if hist else ""))
+  t = num(c["t"], cs)
+  if lagrange(mk())(t) != lf(t):
+    raise Violation("lagrange(points) and lagrange.func(points) differ at %r" % (t,))
   # independent Lagrange evaluation
   exp = F(0)
   for j, (xj, yj) in enumerate(pts):
@@ -514,7 +780,15 @@ def run_lag(c):
     deg = [k for k, _ in lp.terms()]
     if deg and (min(deg) < 0 or max(deg) > len(pts) - 1):
       raise Violation("interpolating polynomial has powers %r for %d points" % (deg, len(pts)))
-  return {"nontrivial": len(pts) >= 2, "labels": ["%d points" % len(pts)]}
+  labels = ["%d points" % len(pts), "points spelled " + cs]
+  if hist:
+    # ... and the variable every later expression is built from is still x
+    if x_terms() != {1: 1}:
+      raise Violation("after %s the module-level x is %r: expressions built from x, lagrange.poly included, "
+                      "are now wrong" % (hist, x_terms()))
+    labels.append("after a result of an operation on the shared x was assigned to")
+    labels.append("shared x history through " + ("a first power" if "**" in c["xhist"][0] else "another operation"))
+  return {"nontrivial": len(pts) >= 2, "labels": labels}
 
 
 def strat_long(tier):
@@ -621,23 +895,45 @@ CLAUSES = [
          floors={"negative powers": .2, "cancellation": .02, "left scalar zero": .1, "left scalar one": .05,
                  "left scalar other": .08, "zero on the left of a non-empty polynomial": .08,
                  "left scalar spelled int": .06, "left scalar spelled float": .06, "left scalar spelled negzero": .03,
-                 "left scalar spelled bool": .03, "left scalar spelled fraction": .03, "left scalar spelled q": .02},
+                 "left scalar spelled bool": .03, "left scalar spelled fraction": .03, "left scalar spelled q": .02,
+                 "coefficients spelled q": .1, "coefficients spelled fraction": .1,
+                 "coefficients spelled int|fraction": .04, "p has 0 terms": .02, "p has 1 terms": .05,
+                 "p has 2 terms": .08, "p has 3+ terms": .1,
+                 "power 4+ of a binomial with plain Fraction coefficients no float can hold": .004,
+                 "power 4+ of a longer polynomial with plain Fraction coefficients no float can hold": .012,
+                 "augmented assignments, all of p cancelled and replaced": .2},
          doc="+ - * ** vs independent arithmetic; commutative/associative/distributive; no stored zero; "
              "plain numbers (every spelling of zero and one included) as LEFT operands of + - * obey "
-             "c-p == -(p-c), (c-p)+p == c, c+p == p+c, c*p == p*c"),
+             "c-p == -(p-c), (c-p)+p == c, c+p == p+c, c*p == p*c; coefficients handed over as Q, as plain "
+             "Fractions (which a float inside the library would turn into inexact floats) or ints, 0/1/2/3+ "
+             "terms, exponents 0..7; the operators spelled as augmented assignments (+= -= *= **= /=) give "
+             "the same polynomials, cancellation included"),
   Clause("evaluation", strat_eval, run_eval, quick=1500, thorough=40000,
-         floors={"negative powers": .2, "sparse Horner merge step": .1},
-         doc="homomorphism; Horner == direct == independent sum"),
+         floors={"negative powers": .2, "sparse Horner merge step": .1,
+                 "coefficients and point spelled fraction": .1, "coefficients and point spelled int|fraction": .05},
+         doc="homomorphism; Horner == direct == independent sum; coefficients and points as Q, plain Fractions, ints"),
   Clause("composition", strat_comp, run_comp, quick=900, thorough=20000,
-         floors={"poly(any)": .2, "laurent(monomial)": .2},
-         doc="p(q) vs independent composition and p(q)(v) == p(q(v))"),
+         floors={"poly(any)": .2, "laurent(monomial)": .2, "coefficients spelled fraction": .1,
+                 "power 4+ of a plain Fraction binomial inside p(q)": .002},
+         doc="p(q) vs independent composition and p(q)(v) == p(q(v)); outer powers up to 5, Q or plain Fractions"),
   Clause("calculus", strat_calc, run_calc, quick=1200, thorough=30000,
-         floors={"integrated": .3},
-         doc="diff linear + product rule, diff undoes integrate, order, values, item access"),
+         floors={"integrated": .3, "coefficients spelled fraction": .1},
+         doc="diff linear + product rule, diff undoes integrate, order, values, item access; Q or plain Fractions"),
   Clause("eq_hash", strat_eqh, run_eqh, quick=1500, thorough=30000,
-         floors={"equal": .2, "unequal": .2},
-         doc="== / != / hash over construction routes and numeric spellings"),
+         floors={"equal": .2, "unequal": .2, "hashed, then assigned to: the empty polynomial": .05,
+                 "hashed, then assigned to: a non-empty polynomial": .2,
+                 "constant polynomial compared with numbers": .06,
+                 "non-constant polynomial compared with numbers": .15,
+                 "non-constant polynomial compared with numbers (a single term)": .04},
+         doc="== / != / hash over construction routes and numeric spellings; every polynomial (the empty one as "
+             "Poly(), a-a, a*0, 0*a, a derivative) is hashed and then assigned to (item, zero): refused, or == still "
+             "implies equal hashes; a polynomial against bare numbers from either side is == only when it is that "
+             "constant"),
   Clause("lagrange", strat_lag, run_lag, quick=800, thorough=15000,
-         floors={"1 points": .02},
-         doc="lagrange.poly / lagrange.func pass through their points and agree with an independent evaluation"),
+         floors={"1 points": .02, "points spelled fraction": .1,
+                 "after a result of an operation on the shared x was assigned to": .15,
+                 "shared x history through a first power": .04, "shared x history through another operation": .08},
+         doc="lagrange.poly / lagrange.func / lagrange pass through their points and agree with an independent "
+             "evaluation, for Q and plain Fraction points, also after a result of a value-preserving operation on "
+             "the module-level x (x**1, x*1, x+0, +x, x(x), copies ...) was changed by item assignment"),
 ]
